@@ -416,6 +416,13 @@ impl<'a> Gen<'a> {
         } else {
             json!({"kind": "random", "seed": rng.next_u64()})
         };
+        // half of the simulated histories also interleave at the accessor yield points inside code
+        // generation (hook H4): schedules below cache-lock granularity, at native speed
+        let mut schedule = schedule;
+        if !plain_seq && rng.chance(1, 2) {
+            schedule["fine"] = json!(true);
+            labels.push("fine".into());
+        }
         History {
             threads,
             schedule,
